@@ -123,6 +123,9 @@ def generate(rng, index, cfg):
         "p_outside": rng.choice([0.0, 0.1, 0.3]),
     }
     world = {"local": _gen_scope_init(rng), "global": _gen_scope_init(rng),
+             # the home directory is itself under version control (dotfiles): ~/.gitattributes exists, and is *not* a
+             # file git reads for other repositories
+             "home_gitattributes": rng.random() < 0.15,
              "xdg": swarm["xdg"], "custom_attributesfile": swarm["custom_attributesfile"],
              # how the work tree is attached to its repository: an ordinary .git directory, or a .git *file* (a linked
              # work tree beside or inside the main one, a repository created with --separate-git-dir)
@@ -316,6 +319,10 @@ class Runner:
                     if init.get("attrs_latin1"):
                         f.write(b"# r\xe8gles du d\xe9p\xf4t\n")
                     f.write(init["attrs"].encode("utf8"))
+        self.home_attrs = os.path.join(w.home, ".gitattributes")
+        if tw.get("home_gitattributes"):
+            with open(self.home_attrs, "w") as f:
+                f.write("*.sh text eol=lf\n")
         # make sure ~/.gitconfig exists so its lock path is well defined
         gc = os.path.join(w.home, ".gitconfig")
         if not os.path.exists(gc):
@@ -349,6 +356,7 @@ class Runner:
         if self.enclosing_attrs:
             o["enclosing_attrs"] = self._read(self.enclosing_attrs)
         o["info_attrs"] = self._read(self.info_attrs)
+        o["home_attrs"] = self._read(self.home_attrs)
         if probes:
             p = self.w.git("check-attr", "diff", "merge", "--", "x.ipynb", check=False)
             o["check_attr"] = p.stdout.decode()
@@ -375,6 +383,34 @@ class Runner:
         w.git("difftool", "-y", "--tool=nbdime", "--", "sp ace.ipynb", check=False, cwd=repo_dir)
         text = self._read(self.tool_log)
         if not text or "TOOL git-nbdifftool" not in text:
+            return None
+        return [tuple(l[4:].split("\t", 1)) for l in text.splitlines() if l.startswith("ARG ")]
+
+    def probe_mergetool(self):
+        """A conflicted merge in the work repository, then `git mergetool --tool=nbdime`: how is nbdime's tool invoked?
+        Returns 'skipped' (a merge driver handles notebooks / no conflict), None (tool not run) or the argument list."""
+        w = self.w
+        ca = w.git("check-attr", "merge", "--", "x.ipynb", check=False).stdout.decode()
+        if "merge: jupyternotebook" in ca:
+            return "skipped"
+        if os.path.exists(self.tool_log):
+            os.remove(self.tool_log)
+        m = w.git("merge", "--no-commit", "--no-ff", "other", check=False)
+        try:
+            if m.returncode == 0:
+                return "skipped"
+            # (git-mergetool is a shell script that needs mv, cat, basename ...: the sandbox's own bin/ comes first)
+            w.git("mergetool", "-y", "--tool=nbdime", "--", "x.ipynb", check=False,
+                  env_extra={"PATH": w.bin + os.pathsep + "/usr/bin" + os.pathsep + "/bin"})
+        finally:
+            w.git("merge", "--abort", check=False)
+            w.git("checkout", "-q", "--", "x.ipynb", check=False)
+            for fn in os.listdir(w.work):
+                if fn.endswith(".orig") or (fn.startswith("x_") and fn.endswith(".ipynb")):
+                    with contextlib.suppress(OSError):
+                        os.remove(os.path.join(w.work, fn))
+        text = self._read(self.tool_log)
+        if not text or "TOOL git-nbmergetool" not in text:
             return None
         return [tuple(l[4:].split("\t", 1)) for l in text.splitlines() if l.startswith("ARG ")]
 
@@ -549,6 +585,11 @@ class Runner:
             self.violate("S4", dict(sig, key="attributes", scope_touched="enclosing"),
                          "%s: the .gitattributes of another work tree (the main work tree this linked work tree belongs to) "
                          "changed: %r -> %r" % (where, before.get("enclosing_attrs"), now.get("enclosing_attrs")))
+            return False
+        if before.get("home_attrs") != now.get("home_attrs"):
+            self.violate("S4", dict(sig, key="attributes", scope_touched="home_dotfile"),
+                         "%s: ~/.gitattributes (the attributes file of the home directory's own repository, not one git reads "
+                         "globally) changed: %r -> %r" % (where, before.get("home_attrs"), now.get("home_attrs")))
             return False
         if op["enable"] and before.get("info_attrs") != now.get("info_attrs"):
             # wherever a rule is put, there is one per driver: a second copy in another attributes file is a duplicate
@@ -770,6 +811,20 @@ class Runner:
                              "after a successful enable, `git difftool --tool=nbdime -- 'sp ace.ipynb'` does not hand nbdime's "
                              "tool the committed and the working version of the notebook: %r" % (args_seen,))
                 return
+        if comp in ("mergetool", "config-git") and outcome == "rc0" and in_repo:
+            seen = self.probe_mergetool()
+            if seen == "skipped":
+                self.stat("mergetool_probe_skipped")
+            else:
+                self.stat("probe_mergetool_invocation_checked")
+                side = lambda v: self.nb_clean.replace('"metadata": {}', '"metadata": {"side": "%s"}' % v)    # noqa: E731
+                ok = seen is not None and len(seen) >= 5 and seen[0][0] == "merge" and seen[1][1] == self.nb_clean and \
+                    seen[2][1] == side("main") and seen[3][1] == side("other") and os.path.basename(seen[4][0]) == "x.ipynb"
+                if not ok:
+                    self.violate("S5", dict(sig, what="mergetool_invocation"),
+                                 "after a successful enable, `git mergetool --tool=nbdime` on a conflicted notebook does not hand "
+                                 "nbdime's tool base, local, remote and the merged path: %r" % (seen,))
+                    return
         op2 = dict(op, fault=None)
         outcome2, _, _ = self.run_command(op2, after, lambda n, argv: None)
         again = self.observe(probes=True)
